@@ -20,8 +20,9 @@ RULE = ("hostile inputs: raw random bytes, byte-mutated and smuggling-mutated va
 TRUSTED = [
     "translator/gen_http.py", "extraction: ExtrOcamlBasic only; ocaml/common/conv.ml + ocaml/HTTP/driver.ml",
     "correspondence harness harness/httpfam.py + harness/c10.py: sampled, not proved",
-    "yarl is an oracle for authority-/absolute-form targets; the response (lax) parser is not modelled in Coq "
-    "(exception-class, limit and retained-bytes oracles run on the implementation directly)",
+    "yarl is an oracle for authority-/absolute-form targets; the response (lax) parser is modelled in "
+    "Model/HttpResp.v (translator/gen_httpresp.py, ocaml/HTTPRESP/driver.ml, harness/httpresp.py; suite "
+    "response-parser-model); the exception-class, limit and retained-bytes oracles still run on the implementation directly",
     "hang-freedom / linear work of the real code is inherited from the model's fuel bound only through "
     "correspondence; wall-clock is not measured",
 ]
